@@ -381,6 +381,42 @@ json.dump(out, sys.stdout)
 '''
 
 
+ISOLATED = r'''
+import sys, json
+from concurrent.futures import ProcessPoolExecutor
+import multiprocessing
+
+def one(c):
+    import python_minifier
+    try:
+        return python_minifier.minify(c['source'], **c['options'])
+    except Exception as e:
+        return 'RAISED ' + type(e).__name__
+
+if __name__ == '__main__':
+    cases = json.load(sys.stdin)
+    with ProcessPoolExecutor(max_workers=12, mp_context=multiprocessing.get_context('spawn'), max_tasks_per_child=1) as ex:
+        out = list(ex.map(one, cases))
+    json.dump(out, sys.stdout)
+'''
+
+
+def run_isolated(cases):
+    """every case in its own fresh interpreter: nothing a previous call left behind can influence the result"""
+    import tempfile
+    env = dict(os.environ, PYTHONPATH=common.SRC, PYTHONHASHSEED='0')
+    with tempfile.NamedTemporaryFile('w', suffix='.py', dir=common.SCRATCH_ROOT, delete=False) as f:
+        f.write(ISOLATED)
+        path = f.name
+    try:
+        p = subprocess.run([common.PY, path], input=json.dumps(cases).encode(), stdout=subprocess.PIPE, stderr=subprocess.PIPE, env=env, timeout=3000)
+    finally:
+        os.remove(path)
+    if p.returncode != 0:
+        raise RuntimeError(p.stderr.decode()[-500:])
+    return json.loads(p.stdout)
+
+
 def run_worker(cases, seed):
     env = dict(os.environ, PYTHONPATH=common.SRC, PYTHONHASHSEED=str(seed))
     p = subprocess.run([common.PY, '-c', WORKER], input=json.dumps(cases).encode(), stdout=subprocess.PIPE, stderr=subprocess.PIPE, env=env, timeout=3000)
@@ -415,12 +451,29 @@ def oracle_c11(res, r, tier):
         for o in ({}, dict(rename_globals=True), dict(remove_literal_statements=True)):
             cases.append({'source': rs, 'options': o})
             cases.append({'source': ordinary, 'options': o})
+    # numerically equal operands of different types, in both orders: a result remembered from one call must not leak into the next
+    pairs = [('100.0 - 99', '100 - 99'), ('3.0 * 1000', '3 * 1000'), ('True & True', '1 & 1'), ('1 + 1', '1.0 + 1.0'), ('0 * 5', 'False * 5'), ('2 ** 10', '2.0 ** 10'), ('7 // 2', '7.0 // 2'), ('0j + 0', '0 + 0')]
+    for a_, b_ in pairs:
+        for first, second in ((a_, b_), (b_, a_)):
+            cases.append({'source': 'STEP = %s\nLIMIT = %s\n' % (first, first), 'options': {}})
+            cases.append({'source': 'STEP = %s\nOTHER = %s\n' % (second, second), 'options': {}})
+    # many foldable expressions in one module: long enough for concurrent calls to interleave inside the folding
+    big = ['\n'.join('SIZE_%d_%d = %d * %d + %d - %d' % (k, i, 3 + i, 7 + k, i * k, k) for i in range(120)) + '\n' for k in range(4)]
+    for b_ in big:
+        cases.append({'source': b_, 'options': {}})
     n = 0
     seeds = [0, 1, 2, 3, 4, 5, 'random', 'random'] if tier == 'quick' else list(range(24)) + ['random'] * 8
     from concurrent.futures import ThreadPoolExecutor
     with ThreadPoolExecutor(8) as ex:
         outs = list(ex.map(lambda sd: run_worker(cases, sd), seeds))
     ref = outs[0]
+    iso = run_isolated(cases)
+    for c, a, b in zip(cases, ref, iso):
+        n += 1
+        if a != b:
+            res.add_violation('c11-history-dependent', 'the result of a call made after other calls in the same process differs from the result of the same call in a fresh interpreter',
+                              {'source': c['source'], 'options': c['options'], 'got': a, 'fresh': b})
+    ref = iso
     for sd, o in zip(seeds[1:], outs[1:]):
         for c, a, b in zip(cases, ref, o):
             n += 1
@@ -477,9 +530,33 @@ def oracle_c11(res, r, tier):
                 results[k].append(python_minifier.minify(c['source'], **c['options']))
             except Exception as e:   # noqa
                 results[k].append('RAISED ' + type(e).__name__)
-    ths = [threading.Thread(target=work, args=(k,)) for k in range(8)]
-    [t.start() for t in ths]
-    [t.join() for t in ths]
+    old_interval = sys.getswitchinterval()
+    sys.setswitchinterval(1e-5)        # switch threads as often as possible: shared mutable state shows up quickly
+    stress = {}
+
+    def work_big(k):
+        stress[k] = []
+        for j in range(len(big)):
+            b_ = big[(j + k) % len(big)]
+            try:
+                stress[k].append((b_, python_minifier.minify(b_)))
+            except Exception as e:   # noqa
+                stress[k].append((b_, 'RAISED ' + type(e).__name__))
+    try:
+        ths = [threading.Thread(target=work, args=(k,)) for k in range(8)]
+        [t.start() for t in ths]
+        [t.join() for t in ths]
+        ths = [threading.Thread(target=work_big, args=(k,)) for k in range(6)]
+        [t.start() for t in ths]
+        [t.join() for t in ths]
+    finally:
+        sys.setswitchinterval(old_interval)
+    want_big = {c['source']: b for c, b in zip(cases, ref) if c['source'] in big}
+    for k in stress:
+        for b_, got in stress[k]:
+            n += 1
+            if got != want_big.get(b_):
+                res.add_violation('c11-thread', 'result differs when the same foldable modules are minified from 6 threads concurrently', {'source': b_[:400], 'options': {}, 'got': got[:400], 'fresh': (want_big.get(b_) or '')[:400]})
     for k in range(8):
         for c, a, b in zip(cases[k::8], results[k], ref[k::8]):
             n += 1
